@@ -480,6 +480,12 @@ package proto
 //@   requires buf != nil
 //@   modifies buf.Buf, all(input)
 //@   ensures appendsOnly(buf) {append-only}
+//@ callsite StateEncoder.EncodeState
+//@   assert col.Data.nrows != 0 [C01,C02] {state-prefix-only-for-a-column-with-rows}
+//@ callsite ColInput.EncodeColumn
+//@   assert col.Data.nrows != 0 && col.Data.nrows == b.Rows [C01,C02] {column-data-only-for-a-non-empty-column-matching-the-block}
+//@ callsite (InputColumn).EncodeStart
+//@   assert col.Data.nrows == b.Rows [C01,C02] {header-only-after-the-row-count-check}
 //@ loop 0 (rangeindex)
 //@   modifies buf.Buf, all(input)
 //@   invariant -1 <= rangeindex && rangeindex < len(input)
@@ -497,6 +503,14 @@ package proto
 //@   requires w != nil && wRI(w)
 //@   modifies w.bufOffset, w.vec, w.buf.Buf, all(input)
 //@   ensures wRI(w) {writer-invariant-kept}
+//@ -- the same per-column order as EncodeRawBlock: row-count check, header, (Prepare), nothing more
+//@ -- for an empty column, then state, then data
+//@ callsite (*Writer).ChainBuffer#2
+//@   assert col.Data.nrows == b.Rows [C02,C14] {header-only-after-the-row-count-check}
+//@ callsite (*Writer).ChainBuffer#3
+//@   assert col.Data.nrows != 0 [C02,C14] {state-prefix-only-for-a-column-with-rows}
+//@ callsite ColInput.WriteColumn
+//@   assert col.Data.nrows != 0 && col.Data.nrows == b.Rows [C02,C14] {column-data-only-for-a-non-empty-column-matching-the-block}
 //@ loop 0 (rangeindex)
 //@   modifies w.bufOffset, w.vec, w.buf.Buf, all(input)
 //@   invariant -1 <= rangeindex && rangeindex < len(input) && wRI(w)
